@@ -915,6 +915,263 @@ theorem merge_spec (hs : StrictWeak r) (hp : Pure lt r)
       rw [List.filter_reverse, this, List.reverse_append, List.filter_reverse, List.filter_reverse,
         List.reverse_reverse, List.reverse_reverse]
 
+/-! natural runs -/
+
+/-- every later element is strictly smaller than every earlier one -/
+def SDesc (r : α → α → Bool) (l : List α) : Prop := l.Pairwise (fun a b => r b a = true)
+
+theorem filter_reverse_sdesc (hs : StrictWeak r) (c : α) {l : List α} (hl : SDesc r l) :
+    l.reverse.filter (eqv r c) = l.filter (eqv r c) := by
+  induction l with
+  | nil => rfl
+  | cons x t ih =>
+    have hx := List.pairwise_cons.mp hl
+    simp only [List.reverse_cons, List.filter_append, ih hx.2, List.filter_cons (x := x)]
+    split
+    · rename_i hcx
+      have : t.filter (eqv r c) = [] := by
+        apply List.filter_eq_nil_iff.mpr
+        intro y hy
+        simp [hs.class_lt hcx (hx.1 y hy)]
+      simp [this]
+    · simp
+
+theorem sorted_reverse_sdesc (hs : StrictWeak r) {l : List α} (hl : SDesc r l) :
+    Sorted r l.reverse := by
+  unfold Sorted
+  rw [List.pairwise_reverse]
+  exact hl.imp (fun {a b} hab => hs.asymm hab)
+
+/-- scanning the non-descending branch keeps the run sorted and only moves the boundary -/
+theorem scan_false_spec (hs : StrictWeak r) (hp : Pure lt r) {cur : α} {tl rest : List α} {n n' : Nat}
+    {p : List α × List α} (hrun : Sorted r (cur :: tl))
+    (h : scan lt false cur (cur :: tl) rest n = .ok p n') :
+    Sorted r p.1 ∧ p.2.reverse ++ p.1 = rest.reverse ++ (cur :: tl) := by
+  induction rest generalizing cur tl n with
+  | nil => simp [scan] at h; obtain ⟨rfl, _⟩ := h; exact ⟨hrun, rfl⟩
+  | cons c rest ih =>
+    simp only [scan, hp n cur c] at h
+    cases hr : r cur c with
+    | false =>
+      simp only [hr, beq_self_eq_true, ite_true] at h
+      have hrun' : Sorted r (c :: cur :: tl) := by
+        refine List.pairwise_cons.mpr ⟨?_, hrun⟩
+        intro y hy
+        rcases List.mem_cons.mp hy with rfl | hy
+        · exact hr
+        · exact hs.ntrans y cur c ((List.pairwise_cons.mp hrun).1 y hy) hr
+      obtain ⟨q1, q2⟩ := ih hrun' h
+      exact ⟨q1, by simp [q2]⟩
+    | true =>
+      simp [hr] at h
+      obtain ⟨rfl, _⟩ := h
+      exact ⟨hrun, rfl⟩
+
+theorem scan_true_spec (hs : StrictWeak r) (hp : Pure lt r) {cur : α} {tl rest : List α} {n n' : Nat}
+    {p : List α × List α} (hrun : SDesc r (cur :: tl))
+    (h : scan lt true cur (cur :: tl) rest n = .ok p n') :
+    SDesc r p.1 ∧ p.2.reverse ++ p.1 = rest.reverse ++ (cur :: tl) := by
+  induction rest generalizing cur tl n with
+  | nil => simp [scan] at h; obtain ⟨rfl, _⟩ := h; exact ⟨hrun, rfl⟩
+  | cons c rest ih =>
+    simp only [scan, hp n cur c] at h
+    cases hr : r cur c with
+    | true =>
+      simp only [hr, beq_self_eq_true, ite_true] at h
+      have hrun' : SDesc r (c :: cur :: tl) := by
+        refine List.pairwise_cons.mpr ⟨?_, hrun⟩
+        intro y hy
+        rcases List.mem_cons.mp hy with rfl | hy
+        · exact hr
+        · exact hs.trans y cur c ((List.pairwise_cons.mp hrun).1 y hy) hr
+      obtain ⟨q1, q2⟩ := ih hrun' h
+      exact ⟨q1, by simp [q2]⟩
+    | false =>
+      simp [hr] at h
+      obtain ⟨rfl, _⟩ := h
+      exact ⟨hrun, rfl⟩
+
+/-- `findRun` cuts a segment `seg` off the end of the unprocessed prefix and delivers it stably sorted -/
+theorem findRun_spec (hs : StrictWeak r) (hp : Pure lt r) {rpre : List α} {n n' : Nat}
+    {p : List α × List α} (h : findRun lt rpre n = .ok p n') :
+    ∃ seg, StableSorted r seg p.1 ∧ p.2.reverse ++ seg = rpre.reverse := by
+  match rpre with
+  | [] => simp [findRun] at h; obtain ⟨rfl, _⟩ := h; exact ⟨[], ⟨List.Pairwise.nil, fun _ => rfl⟩, rfl⟩
+  | [a] =>
+    simp [findRun] at h; obtain ⟨rfl, _⟩ := h
+    exact ⟨[a], ⟨List.pairwise_singleton _ _, fun _ => rfl⟩, rfl⟩
+  | a :: b :: rest =>
+    simp only [findRun, hp n a b] at h
+    cases hr : r a b with
+    | true =>
+      simp only [hr] at h
+      obtain ⟨q, h1, h2⟩ := Res.map_eq_ok h
+      have hrun : SDesc r [b, a] := by simp [SDesc, hr]
+      obtain ⟨q1, q2⟩ := scan_true_spec hs hp hrun h1
+      subst h2
+      refine ⟨q.1, ⟨sorted_reverse_sdesc hs q1, fun c => filter_reverse_sdesc hs c q1⟩, ?_⟩
+      simp [q2]
+    | false =>
+      simp only [hr] at h
+      have hrun : Sorted r [b, a] := by simp [Sorted, hr]
+      obtain ⟨q1, q2⟩ := scan_false_spec hs hp hrun h
+      exact ⟨p.1, ⟨q1, fun _ => rfl⟩, by simp [q2]⟩
+
+theorem stableSorted_oinsert (hs : StrictWeak r) {seg run : List α} (c : α)
+    (h : StableSorted r seg run) : StableSorted r (c :: seg) (oinsert r c run) := by
+  refine ⟨sorted_oinsert hs c h.1, fun d => ?_⟩
+  simp only [filter_oinsert hs, h.2 d, List.filter_cons]
+
+theorem extendRun_spec (hs : StrictWeak r) (hp : Pure lt r) {run rest seg : List α} {n n' : Nat}
+    {q : List α × List α} (hrun : StableSorted r seg run)
+    (h : extendRun lt run rest n = .ok q n') :
+    ∃ seg', StableSorted r seg' q.1 ∧ q.2.reverse ++ seg' = rest.reverse ++ seg := by
+  induction rest generalizing run seg n with
+  | nil => simp [extendRun] at h; obtain ⟨rfl, _⟩ := h; exact ⟨seg, hrun, rfl⟩
+  | cons c rest ih =>
+    simp only [extendRun] at h
+    split at h
+    · obtain ⟨v, m, h1, h2⟩ := Res.bind_eq_ok h
+      have h1' := insertHead_pure hp (Res.failCtx_eq_ok h1)
+      subst h1'
+      obtain ⟨seg', q1, q2⟩ := ih (stableSorted_oinsert hs c hrun) h2
+      exact ⟨seg', q1, by simp [q2]⟩
+    · cases h; exact ⟨seg, hrun, rfl⟩
+
+/-! the stack: every pending run is the stable sort of the segment it covers -/
+
+theorem stableSorted_merge (hs : StrictWeak r) (hp : Pure lt r) {g0 g1 s0 s1 m : List α} {n n' : Nat}
+    (h0 : StableSorted r g0 s0) (h1 : StableSorted r g1 s1) (h : merge lt s0 s1 n = .ok m n') :
+    StableSorted r (g0 ++ g1) m := by
+  obtain ⟨q1, _, q3⟩ := merge_spec hs hp s0 s1 n m n' h0.1 h1.1 h
+  exact ⟨q1, fun c => by rw [q3 c, h0.2 c, h1.2 c, List.filter_append]⟩
+
+theorem collapseLoop_spec (hs : StrictWeak r) (hp : Pure lt r) (az : Bool) (fuel : Nat)
+    (segs st st' : List (List α)) (n n' : Nat) (hst : List.Forall₂ (StableSorted r) segs st)
+    (h : collapseLoop lt az fuel st n = .ok st' n') :
+    ∃ segs', List.Forall₂ (StableSorted r) segs' st' ∧ segs'.flatten = segs.flatten := by
+  induction fuel generalizing segs st n with
+  | zero =>
+    cases hc : collapse az st with
+    | none => rw [collapseLoop_none lt 0 n hc] at h; cases h; exact ⟨segs, hst, rfl⟩
+    | some b => simp [collapseLoop, hc] at h
+  | succ fuel ih =>
+    cases hc : collapse az st with
+    | none => rw [collapseLoop_none lt _ n hc] at h; cases h; exact ⟨segs, hst, rfl⟩
+    | some b =>
+      cases b with
+      | false =>
+        obtain ⟨s0, s1, rest, rfl⟩ := collapse_some_false hc
+        rw [collapseLoop_false lt fuel n hc] at h
+        obtain ⟨m, n1, h1, h2⟩ := Res.bind_eq_ok h
+        match segs, hst with
+        | g0 :: g1 :: gs, .cons a0 (.cons a1 ar) =>
+          obtain ⟨segs', q1, q2⟩ := ih (segs := (g0 ++ g1) :: gs) _ _
+            (.cons (stableSorted_merge hs hp a0 a1 (Res.failCtx_eq_ok h1)) ar) h2
+          exact ⟨segs', q1, by simp [q2]⟩
+      | true =>
+        obtain ⟨s0, s1, s2, rest, rfl⟩ := collapse_some_true hc
+        rw [collapseLoop_true lt fuel n hc] at h
+        obtain ⟨m, n1, h1, h2⟩ := Res.bind_eq_ok h
+        match segs, hst with
+        | g0 :: g1 :: g2 :: gs, .cons a0 (.cons a1 (.cons a2 ar)) =>
+          obtain ⟨segs', q1, q2⟩ := ih (segs := g0 :: (g1 ++ g2) :: gs) _ _
+            (.cons a0 (.cons (stableSorted_merge hs hp a1 a2 (Res.failCtx_eq_ok h1)) ar)) h2
+          exact ⟨segs', q1, by simp [q2]⟩
+
+theorem mainLoop_spec (hs : StrictWeak r) (hp : Pure lt r) (fuel : Nat) (rpre : List α)
+    (segs st : List (List α)) (n n' : Nat) (ys : List α)
+    (hst : List.Forall₂ (StableSorted r) segs st)
+    (h : mainLoop lt fuel rpre st n = .ok ys n') :
+    StableSorted r (rpre.reverse ++ segs.flatten) ys := by
+  induction fuel generalizing rpre segs st n with
+  | zero =>
+    cases rpre with
+    | nil =>
+      match st, segs, hst with
+      | [s], [g], .cons a .nil => simp [mainLoop] at h; obtain ⟨rfl, _⟩ := h; simpa using a
+      | [], _, _ => simp [mainLoop] at h
+      | _ :: _ :: _, _, _ => simp [mainLoop] at h
+    | cons a t => simp [mainLoop] at h
+  | succ fuel ih =>
+    cases rpre with
+    | nil =>
+      match st, segs, hst with
+      | [s], [g], .cons a .nil => simp [mainLoop] at h; obtain ⟨rfl, _⟩ := h; simpa using a
+      | [], _, _ => simp [mainLoop] at h
+      | _ :: _ :: _, _, _ => simp [mainLoop] at h
+    | cons a rpre =>
+      simp only [mainLoop] at h
+      obtain ⟨p, n1, e1, h⟩ := Res.bind_eq_ok h
+      obtain ⟨q, n2, e2, h⟩ := Res.bind_eq_ok h
+      obtain ⟨st', n3, e3, h⟩ := Res.bind_eq_ok h
+      obtain ⟨seg, s1, s2⟩ := findRun_spec hs hp (Res.failCtx_eq_ok e1)
+      obtain ⟨seg', t1, t2⟩ := extendRun_spec hs hp s1 (Res.failCtx_eq_ok e2)
+      obtain ⟨segs', u1, u2⟩ := collapseLoop_spec hs hp _ _ (seg' :: segs) _ _ _ _ (.cons t1 hst)
+        (Res.failCtx_eq_ok e3)
+      have := ih q.2 segs' st' n3 u1 h
+      rw [u2] at this
+      have e : q.2.reverse ++ (seg' :: segs).flatten = (a :: rpre).reverse ++ segs.flatten := by
+        rw [List.flatten_cons, ← List.append_assoc, t2, s2]
+      rw [e] at this
+      exact this
+
+/-- **functional correctness of `try_sort`**: with a pure comparator deciding a strict weak order the
+answer, if any, is the reference stable sort of the input -/
+theorem trySort_spec (hs : StrictWeak r) (hp : Pure lt r) {xs ys : List α} {n n' : Nat}
+    (h : trySort lt xs n = .ok ys n') : ys = isort r xs := by
+  unfold trySort at h
+  split at h
+  · exact insertionSort_pure hp h
+  · have := mainLoop_spec hs hp _ _ [] [] _ _ _ .nil h
+    exact eq_isort_of_stableSorted hs (by simpa using this)
+
+/-- with a pure comparator there is an answer -/
+theorem trySort_pure_ok (hp : Pure lt r) (xs : List α) (n : Nat) :
+    ∃ ys n', trySort lt xs n = .ok ys n' := by
+  have hg := trySort_good lt xs n
+  cases hr : trySort lt xs n with
+  | ok ys n' => exact ⟨ys, n', rfl⟩
+  | fail e b n' =>
+    rw [hr] at hg
+    obtain ⟨_, _, _, a, b', hab⟩ := hg
+    rw [hp] at hab; cases hab
+  | panic => rw [hr] at hg; exact hg.elim
+
+/-! ### `XSequence::sorted` -/
+
+theorem isSortedPre_true_spec {cmp : Cmp3 ε α} {c3 : α → α → Int} (hp : ∀ i a b, cmp i a b = .ok (c3 a b))
+    {xs : List α} {n n' : Nat} (h : isSortedPre cmp xs n = .ok true n') :
+    xs.IsChain (fun a b => ¬ c3 a b > 0) := by
+  induction xs generalizing n with
+  | nil => exact List.IsChain.nil
+  | cons a t ih =>
+    cases t with
+    | nil => exact List.IsChain.singleton a
+    | cons b t =>
+      simp only [isSortedPre, hp n a b] at h
+      split at h
+      · simp at h
+      · rename_i hc
+        exact List.IsChain.cons_cons hc (ih h)
+
+theorem sorted_of_chain (hs : StrictWeak r) {xs : List α}
+    (h : xs.IsChain (fun a b => r b a = false)) : Sorted r xs := by
+  unfold Sorted
+  induction xs with
+  | nil => exact List.Pairwise.nil
+  | cons a t ih =>
+    cases t with
+    | nil => exact List.pairwise_singleton _ _
+    | cons b t =>
+      have hab : r b a = false := (List.isChain_cons_cons.mp h).1
+      have ht := ih (List.isChain_cons_cons.mp h).2
+      refine List.pairwise_cons.mpr ⟨?_, ht⟩
+      intro y hy
+      rcases List.mem_cons.mp hy with rfl | hy
+      · exact hab
+      · exact hs.ntrans y b a ((List.pairwise_cons.mp ht).1 y hy) hab
+
 end pure
 
 end XrayModel.Sort
